@@ -500,22 +500,155 @@ func runMixed(r *hx.Run, rng *hx.Rng) string {
 	return fmt.Sprintf("conc mixed %s %s %s %s", csv(wv), csv(gvs), csv(qGet), csv(qRaw))
 }
 
+// ---------------------------------------------------------------------------------------------
+// wide values: a multi-word V makes a torn read observable.  One Compute writer replaces a 4 KiB value whose
+// 512 words all carry one generation number; several readers run truly in parallel and check that every
+// value Get returns is uniform.  No store/codec/callback call lies inside the window this is about (copying the
+// cached value on the fast path vs. updating the cache), so it needs real parallelism and many iterations.
+
+const wideWords = 512
+
+type wide struct{ w [wideWords]uint64 }
+
+func mkWide(g uint64) (v wide) {
+	for i := range v.w {
+		v.w[i] = g
+	}
+
+	return v
+}
+
+func runWide(r *hx.Run, rng *hx.Rng) string {
+	if runtime.GOMAXPROCS(0) < 4 {
+		runtime.GOMAXPROCS(4)
+	}
+	base := mapdb.NewMapDB()
+	tv := kvstore.NewTypedValue[wide](base, tvKey,
+		func(v wide) ([]byte, error) { return encU64(v.w[0]), nil },
+		func(b []byte) (wide, int, error) {
+			g, ok := decU64(b)
+			if !ok {
+				return wide{}, 0, errDec
+			}
+
+			return mkWide(g), 8, nil
+		})
+	n := uint64(rng.Range(30000, 50000))
+	if raceEnabled {
+		n /= 8
+	}
+	readers := rng.Range(3, 6)
+	var stop atomic.Bool
+	var mu sync.Mutex
+	var sampled []uint64 // generations readers saw (sample) ...
+	var torn []string    // ... and values that are not one generation
+	var wg, rwg sync.WaitGroup
+	wg.Add(1)
+	go func() {
+		defer wg.Done()
+		for i := uint64(0); i < n; i++ {
+			tv.Compute(func(cur wide, ex bool) (wide, error) {
+				if !ex {
+					return mkWide(1), nil
+				}
+
+				return mkWide(cur.w[0] + 1), nil
+			})
+		}
+	}()
+	for g := 0; g < readers; g++ {
+		rwg.Add(1)
+		go func() {
+			defer rwg.Done()
+			var local []uint64
+			var localTorn []string
+			last := uint64(0)
+			for !stop.Load() {
+				v, err := tv.Get()
+				if err != nil {
+					continue // not found yet
+				}
+				g0 := v.w[0]
+				for i := 1; i < wideWords; i++ {
+					if v.w[i] != g0 {
+						if len(localTorn) < 5 {
+							localTorn = append(localTorn, fmt.Sprintf("word0=%d word%d=%d", g0, i, v.w[i]))
+						}
+						g0 = ^uint64(0)
+
+						break
+					}
+				}
+				if g0 == ^uint64(0) {
+					continue
+				}
+				if g0 < last && len(localTorn) < 5 {
+					localTorn = append(localTorn, fmt.Sprintf("generation %d after %d", g0, last))
+				}
+				if g0 != last && len(local) < 60 {
+					local = append(local, g0)
+				}
+				last = g0
+			}
+			mu.Lock()
+			sampled = append(sampled, local...)
+			torn = append(torn, localTorn...)
+			mu.Unlock()
+		}()
+	}
+	if !waitAll(&wg, 120*time.Second) {
+		r.Fail("watchdog", "wide writer did not finish within 120s", map[string]string{"oracle": "watchdog", "api": "TypedValue.Compute"})
+		stop.Store(true)
+
+		return "conc wide 0 -"
+	}
+	stop.Store(true)
+	if !waitAll(&rwg, 60*time.Second) {
+		r.Fail("watchdog", "wide readers did not finish within 60s", map[string]string{"oracle": "watchdog", "api": "TypedValue.Get"})
+
+		return "conc wide 0 -"
+	}
+	if len(torn) > 0 {
+		r.Fail("readers-see-written", fmt.Sprintf("Get returned a value that was never written (512 words, one generation each write): %s", strings.Join(torn, "; ")),
+			map[string]string{"oracle": "torn-value", "api": "TypedValue.Get"})
+		for range torn {
+			sampled = append(sampled, n+1) // not a written generation: the Lean predicate rejects
+		}
+	}
+	final, _ := tv.Get()
+	if final.w[0] != n {
+		r.Fail("no-lost-update", fmt.Sprintf("%d increments of the wide value but it ends at generation %d", n, final.w[0]),
+			map[string]string{"oracle": "lost-update", "api": "TypedValue.Compute", "part": "wide"})
+	}
+	sampled = append(sampled, final.w[0])
+	r.CountN("conc:wide-computes", int(n))
+	r.CountN("conc:wide-sampled-gets", len(sampled))
+
+	return fmt.Sprintf("conc wide %d %s", n, csv(sampled))
+}
+
 func runConc(r *hx.Run, kind string, rng *hx.Rng) string {
 	if kind == "mixed" {
 		return runMixed(r, rng)
+	}
+	if kind == "wide" {
+		return runWide(r, rng)
 	}
 
 	return runCounter(r, rng)
 }
 
 func concPart(r *hx.Run) {
-	nc, nm := 200*r.Scale, 120*r.Scale
-	for i := 0; i < nc+nm; i++ {
+	nc, nm, nwide := 200*r.Scale, 120*r.Scale, 8*r.Scale
+	for i := 0; i < nc+nm+nwide; i++ {
 		rng, sub := r.Rng.Fork()
 		r.Case(sub)
 		kind := "counter"
 		if i >= nc {
 			kind = "mixed"
+		}
+		if i >= nc+nm {
+			kind = "wide"
 		}
 		line := runConc(r, kind, rng)
 		r.Line(line, "accept")
